@@ -131,7 +131,23 @@ def run_real(bib, lib_abs, keyof, order, keep):
     after = [proj(b) for b in lib.blocks]
     byraw = {p["raw"]: p for p in before}
     outp = [proj(b) for b in out.blocks]
-    return {"raised": False, "out": [p["raw"] for p in outp],
+    second = None
+    if mw0 is not None:
+        # the result is handed to the same sorter once more after one of its blocks got another key (through the public
+        # setter): a second case for the judge - input = the first result as it is now, output = the second result
+        keyed = [b for b in out.blocks if isinstance(b, (M.Entry, M.String))]
+        keys = sorted({keyof(b0) for b0 in lib_abs} - {""})
+        if keyed and len(keys) >= 2:
+            victim = keyed[len(keyed) // 2]
+            newkey = next(k for k in (keys if len(lib_abs) % 2 else keys[::-1]) if k != victim.key)
+            victim.key = newkey
+            try:
+                out2 = mw0.transform(out)
+                second = {"in": [[b.raw, (newkey if b is victim else None)] for b in out.blocks], "out": [b.raw for b in out2.blocks],
+                          "unaltered": all(proj(b)["raw"] in byraw for b in out2.blocks)}
+            except Exception as e:  # noqa
+                second = {"in": [[b.raw, (newkey if b is victim else None)] for b in out.blocks], "out": [], "raised": type(e).__name__}
+    return {"raised": False, "second": second, "out": [p["raw"] for p in outp],
             "unaltered": all(p == byraw.get(p["raw"]) for p in outp),
             "input_unchanged": before == after and lib.blocks is not out.blocks}
 
@@ -210,6 +226,7 @@ def run(chk: core.Check):
     kinds = ["entry"] * 4 + ["string"] * 2 + ["preamble", "icomment", "icomment", "ecomment", "failed", "dup", "dupfield", "mwerror"]
     keypool = ["", "a", "b", "B", "A", "ab", "é", "Z", "10", "9", "a b", "ß", "ss", "ſ", "İ", "E\u0301mile", "\u00c9mile", "\u212a", "K", "\u212b", "\u00c5"]
     cases, inputs = [], {}
+    extra = []
     for cid in range(ncases):
         n = rnd.randint(0, 14)
         used = {"entry": set(), "string": set()}
@@ -237,6 +254,21 @@ def run(chk: core.Check):
                       "keep": keep, "raised": got["raised"], "out": got["out"], "unaltered": got["unaltered"],
                       "input_unchanged": got["input_unchanged"]})
         inputs[cid] = {"kind": "keyed", "lib": lib_abs, "order": order, "keep": keep}
+        sec = got.get("second")
+        if sec:
+            byid = {b["id"]: b for b in lib_abs}
+            lib2 = []
+            for raw, newkey in sec["in"]:
+                b0 = byid[raw]
+                lib2.append({"id": raw, "kind": b0["kind"], "kr": rank[newkey] if newkey is not None else b0["kr"]})
+            extra.append(({"lib": lib2, "order": order, "keep": keep, "raised": bool(sec.get("raised")), "out": sec["out"],
+                           "unaltered": sec.get("unaltered", True), "input_unchanged": True},
+                          {"kind": "keyed", "lib": lib_abs, "order": order, "keep": keep,
+                           "note": "second sort by the same sorter object after one key of its first result was reassigned"}))
+    for c2, i2 in extra:
+        c2["id"] = len(cases)
+        inputs[c2["id"]] = i2
+        cases.append(c2)
     ok = judge(chk, cases, inputs, "T3")
     chk.traces += ok
     chk.evaluations += len(cases)
